@@ -402,6 +402,15 @@ RETCODE adfFileTruncate ( struct AdfFile * const file,
         }
     }
 
+    // 3b. the shortened block lists reach the disk before the blocks are given back: from the
+    //     moment a block is marked free another file may take (and overwrite) it
+    rc = adfFileFlush ( file );
+    if ( rc != RC_OK ) {
+        free ( blocksToRemove.sectors );
+        return rc;
+    }
+    file->currentDataBlockChanged = FALSE;
+
     // 4.
     // todo: add sorting blocksToRemove (to optimize disk access)
     for ( unsigned i = 0 ; i < blocksToRemove.len ; ++i ) {
